@@ -384,6 +384,14 @@ def _min_fold_over_all(fn, res, val):
         if ps is not None and ps.endswith(".records.[].[].1"):
             seen_elem = True
             continue
+        if a[0] == "call" and len(a[2]) == 2 and (a[1].startswith("std::cmp::min") or (a[4] or "").endswith("Ord::min") or a[1].endswith("::min")):
+            # acc = min(acc, element): the direction is in the function; the element must range over all records
+            other = [x for x in a[2] if A.peel(x)[0] not in ("loop", "phi")]
+            pss = [A.path_str(x, open_root=True) for x in other]
+            if len(other) == 1 and pss[0] is not None and pss[0].endswith(".records.[].[].1"):
+                seen_elem = True
+                continue
+            return None
         # element of records.get_mut(&k), k from keys()
         gm = [x for x in A.walk(a) if x[0] == "call" and x[1].endswith("HashMap::<K, V, S, A>::get_mut") and A.last_field(x[2][0]) == "records"]
         if gm:
